@@ -45,8 +45,11 @@ var (
 		Code:    dns.ExtendedErrorCodeDNSBogus,
 		Message: "Parent has DS records but zone appears unsigned",
 	}
+	// RFC 8914 code 5 (DNSSEC Indeterminate) is "no trust anchor": a typed
+	// code lets consumers that recognise a validation failure by its EDE
+	// (DNS64) see this one too.
 	ErrTrustAnchorsUnavailable = &dnsutil.EDEError{
-		Code:    dns.ExtendedErrorCodeOther,
+		Code:    dns.ExtendedErrorCodeDNSSECIndeterminate,
 		Message: "Trust anchors unavailable — refusing to validate",
 	}
 )
